@@ -97,6 +97,44 @@ class _Pruner(ast.NodeTransformer):
 
 
 # ----------------------------------------------------------------------------------------------
+def _expand_kw_splats(tree):
+    """`f(x, **h(a))` where h is a function of the same module whose body is `return {"k1": e1, "k2": e2}` (string keys, parameters used as
+    plain names) reads `f(x, k1=e1[a], k2=e2[a])`: a keyword bundle factored into a helper is the keywords it abbreviates"""
+    helpers = {}
+    for n in tree.body:
+        if isinstance(n, ast.FunctionDef) and not n.decorator_list and not n.args.vararg and not n.args.kwarg and not n.args.kwonlyargs:
+            body = [b for b in n.body if not (isinstance(b, ast.Expr) and isinstance(b.value, ast.Constant))]
+            if len(body) == 1 and isinstance(body[0], ast.Return) and isinstance(body[0].value, ast.Dict) and body[0].value.keys \
+                    and all(isinstance(k, ast.Constant) and isinstance(k.value, str) and k.value.isidentifier() for k in body[0].value.keys):
+                helpers[n.name] = n
+    if not helpers:
+        return tree
+
+    class X(ast.NodeTransformer):
+        def visit_Call(self, node):
+            self.generic_visit(node)
+            new_kw = []
+            for k in node.keywords:
+                h = helpers.get(k.value.func.id) if (k.arg is None and isinstance(k.value, ast.Call) and isinstance(k.value.func, ast.Name)) else None
+                if h is None or k.value.keywords or any(isinstance(a, ast.Starred) for a in k.value.args) or len(k.value.args) != len(h.args.args):
+                    new_kw.append(k)
+                    continue
+                sub = {p.arg: a for p, a in zip(h.args.args, k.value.args)}
+                d = [b for b in h.body if isinstance(b, ast.Return)][0].value
+
+                class S(ast.NodeTransformer):
+                    def visit_Name(self, nm):
+                        if isinstance(nm.ctx, ast.Load) and nm.id in sub:
+                            return copy.deepcopy(sub[nm.id])
+                        return nm
+                for key, val in zip(d.keys, d.values):
+                    v = S().visit(copy.deepcopy(val))
+                    new_kw.append(ast.copy_location(ast.keyword(arg=key.value, value=ast.copy_location(v, k.value)), k))
+            node.keywords = new_kw
+            return node
+    return X().visit(tree)
+
+
 class Mod:
     def __init__(self, name, path, src, tree, raw_tree, pruned):
         self.name = name
@@ -213,6 +251,7 @@ class Model:
                 raw = ast.parse(src, filename=path)  # SyntaxError -> analysis error upstream
                 pr = _Pruner()
                 tree = pr.visit(copy.deepcopy(raw))
+                tree = _expand_kw_splats(tree)
                 ast.fix_missing_locations(tree)
                 self.pruned_arms += pr.pruned
                 self.mods[name] = Mod(name, rel, src, tree, raw, pr.pruned)
